@@ -3,8 +3,10 @@ package props
 // C09 (part lin) — alignment descriptions of NW, SW and Fitted are well-formed, faithfully
 // scored, type-independent and total.  Inputs, executor and observation are those of
 // c08_lin.go; this generator adds the ill-typed inputs (illegal letters at every position,
-// differing alphabet objects, Letters against QLetters, short / ragged / undersized
-// matrices, alphabets without a gap letter at index 0, no alphabet).
+// differing alphabet objects, Letters against QLetters, every matrix shape class of
+// alinShapes — empty, undersized, short, tall, wide, ragged inside and beyond the rows the
+// alphabet addresses, and the legal oversized squares — alphabets without a gap letter at
+// index 0, no alphabet).
 //
 // It also owns the static fact common to all six aligners: the twelve generated
 // `*_letters.go` / `*_qletters.go` files are byte-for-byte what genCode.sh produces from
@@ -21,6 +23,134 @@ import (
 
 	"verif/harness/hx"
 )
+
+// alinShape is a scoring matrix of a named shape class.
+type alinShape struct {
+	name string
+	m    [][]int
+}
+
+func alinCloneMatrix(m [][]int) [][]int {
+	out := make([][]int, len(m))
+	for i := range m {
+		out[i] = append([]int{}, m[i]...)
+	}
+	return out
+}
+
+// alinRowLen returns a copy of m with row i cut or zero-extended to length l.
+func alinRowLen(m [][]int, i, l int) [][]int {
+	out := alinCloneMatrix(m)
+	for len(out[i]) < l {
+		out[i] = append(out[i], 0)
+	}
+	out[i] = out[i][:l]
+	return out
+}
+
+// alinRect is the rows x cols matrix with entry [i][j] of the asymmetric family matrix.
+func alinRect(rows, cols int) [][]int {
+	big := rows
+	if cols > big {
+		big = cols
+	}
+	src := alinFamily(big)[8]
+	out := make([][]int, rows)
+	for i := range out {
+		out[i] = append([]int{}, src[i][:cols]...)
+	}
+	return out
+}
+
+// alinShapes lists matrices of every shape class for an alphabet of n >= 3 letters.  Legal:
+// square of the alphabet's size and larger (exact, oversized+1, +2, +5).  Ill-typed, error
+// ErrMatrixWrongSize: fewer rows than letters (empty, 1x1, undersized square, short =
+// rows as long as the alphabet, undersized and ragged).  Ill-typed, error
+// ErrMatrixNotSquare: at least as many rows as letters and a row whose length is not the
+// number of rows — ragged at a row the alphabet addresses (first, every one, last), at a row
+// beyond the alphabet (oversized matrix with a short, long or empty extra row), every row
+// (wide, tall, oversized rectangles).
+func alinShapes(n int) []alinShape {
+	sym, asym := alinFamily(n)[0], alinFamily(n)[8]
+	var out []alinShape
+	add := func(name string, m [][]int) { out = append(out, alinShape{name, m}) }
+	add("exact-symmetric", sym)
+	add("exact-asymmetric", asym)
+	for ki, k := range alinOverSizes {
+		add(fmt.Sprintf("oversized+%d-symmetric", k), alinOversize(sym, k, ki%4))
+		add(fmt.Sprintf("oversized+%d-asymmetric", k), alinOversize(asym, k, (ki+1)%4))
+		add(fmt.Sprintf("oversized+%d-family", k), alinFamily(n + k)[8])
+	}
+	add("empty", nil)
+	add("one-empty-row", [][]int{{}})
+	add("1x1", [][]int{{0}})
+	add("undersized-square-1", alinFamily(n - 1)[0])
+	add("undersized-square-2", alinFamily(n - 2)[1])
+	add("short", alinRect(n-1, n))                              // n-1 rows of n
+	add("short-ragged", alinRowLen(alinRect(n-1, n-1), 0, n-2)) // undersized and ragged: the size comes first
+	add("short-wide", alinRect(n-1, n+1))
+	add("tall+1", alinRect(n+1, n)) // more rows than columns
+	add("tall+2", alinRect(n+2, n))
+	add("wide+1", alinRect(n, n+1)) // more columns than rows
+	add("wide+2", alinRect(n, n+2))
+	for i := 0; i < n; i++ { // ragged at every row the alphabet addresses
+		add(fmt.Sprintf("ragged-row%d-short", i), alinRowLen(asym, i, n-1))
+		add(fmt.Sprintf("ragged-row%d-long", i), alinRowLen(asym, i, n+1))
+	}
+	add("ragged-empty-row", alinRowLen(asym, n/2, 0))
+	add("ragged-two-rows", alinRowLen(alinRowLen(asym, 1, n+1), n-1, n-1)) // same number of entries as a square
+	// oversized and ragged: inside the alphabet's rows and beyond them
+	for _, k := range []int{1, 2} {
+		big := alinOversize(asym, k, 3)
+		add(fmt.Sprintf("oversized+%d-ragged-row0", k), alinRowLen(big, 0, n+k-1))
+		add(fmt.Sprintf("oversized+%d-ragged-last-alphabet-row", k), alinRowLen(big, n-1, n))
+		add(fmt.Sprintf("oversized+%d-ragged-extra-row-short", k), alinRowLen(big, n+k-1, n))
+		add(fmt.Sprintf("oversized+%d-ragged-extra-row-shorter", k), alinRowLen(big, n, n+k-1))
+		add(fmt.Sprintf("oversized+%d-ragged-extra-row-long", k), alinRowLen(big, n+k-1, n+k+1))
+		add(fmt.Sprintf("oversized+%d-ragged-extra-row-empty", k), alinRowLen(big, n+k-1, 0))
+	}
+	add("oversized-rect-wide", alinRect(n+1, n+2))
+	add("oversized-rect-tall", alinRect(n+2, n+1))
+	add("exact-rows-plus-row-of-n+1", append(alinCloneMatrix(asym), make([]int, n+1))) // n+1 rows: n of n, one of n+1
+	return out
+}
+
+// alinBreakMatrix turns a legal matrix into a random ill-shaped (or oversized) one.
+func alinBreakMatrix(g *hx.Gen, m [][]int) [][]int {
+	n := len(m)
+	switch g.Intn(7) {
+	case 0: // a row cut or extended
+		i := g.Intn(n)
+		return alinRowLen(m, i, g.Pick(0, n-1, n-1, n+1, n+1, n+2))
+	case 1: // rows dropped: undersized, rows too long
+		return alinCloneMatrix(m[:g.Range(0, n-1)])
+	case 2: // undersized square
+		k := g.Range(1, n-1)
+		out := alinCloneMatrix(m[:k])
+		for i := range out {
+			out[i] = out[i][:k]
+		}
+		return out
+	case 3: // rows added without widening: tall
+		out := alinCloneMatrix(m)
+		for k := g.Range(1, 3); k > 0; k-- {
+			out = append(out, make([]int, n))
+		}
+		return out
+	case 4: // every row widened: wide
+		out := alinCloneMatrix(m)
+		k := g.Range(1, 3)
+		for i := range out {
+			out[i] = append(out[i], make([]int, k)...)
+		}
+		return out
+	case 5: // oversized with a ragged extra row
+		big := alinRandOversize(g, m, -1)
+		i := g.Range(n, len(big)-1)
+		return alinRowLen(big, i, g.Pick(0, n, len(big)-1, len(big)+1))
+	}
+	return alinRandOversize(g, m, -1) // legal
+}
 
 func alinIllTyped(g *hx.Gen) {
 	fam3 := alinFamily(3)
@@ -53,41 +183,30 @@ func alinIllTyped(g *hx.Gen) {
 			}
 		}
 	}
-	// matrices: empty, short, long, ragged at every row, undersized but square, oversized
+	// matrices: every shape class of alinShapes for the 5-letter alphabet.DNAgapped and for the
+	// 3-letter alphabet, for every aligner (mode LL runs plain and quality letters)
 	dna := alinAlphaTok(alinDNA, false, '-')
-	var mats [][][]int
 	full := alinFamily(5)[0]
-	mats = append(mats, nil, [][]int{{}}, [][]int{{0}}, alinFamily(4)[0], alinFamily(3)[1], alinFamily(6)[0], alinFamily(7)[3])
-	for i := 0; i < 5; i++ {
-		for _, d := range []int{-1, 1} {
-			m := make([][]int, 5)
-			for k := range m {
-				m[k] = append([]int{}, full[k]...)
-			}
-			if d < 0 {
-				m[i] = m[i][:4]
-			} else {
-				m[i] = append(m[i], 0)
-			}
-			mats = append(mats, m)
-		}
-	}
-	mats = append(mats, full[:4], append(append([][]int{}, full...), []int{0, 0, 0, 0, 0}), append(append([][]int{}, full...), []int{0, 0, 0, 0, 0, 0}))
-	{ // 6 rows of 5, 4 rows of 5, 5 rows with an empty one
-		m := append([][]int{}, full...)
-		m[2] = []int{}
-		mats = append(mats, m)
-	}
 	dnaSeqs := []string{"a", "acgt", "ttgaca", "t", "gat-ta", "ACGT"}
 	for _, op := range alinOps {
-		for _, m := range mats {
+		for _, sh := range alinShapes(5) {
+			mtok := alinMatrixTok(sh.m)
 			for _, r := range dnaSeqs {
 				for _, q := range []string{"c", "gatt", "tgca"} {
 					if g.Done() {
 						return
 					}
-					g.Casef("%s %s %s %s %s LL", op, dna, alinMatrixTok(m), hx.Hex([]byte(r)), hx.Hex([]byte(q)))
+					g.Casef("%s %s %s %s %s LL", op, dna, mtok, hx.Hex([]byte(r)), hx.Hex([]byte(q)))
 				}
+			}
+		}
+		for _, sh := range alinShapes(3) {
+			mtok := alinMatrixTok(sh.m)
+			for _, rq := range [][2]string{{"a", "b"}, {"b", "b"}, {"ab", "ba"}, {"abba", "bab"}, {"bb", "abab"}} {
+				if g.Done() {
+					return
+				}
+				g.Casef("%s %s %s %s %s LL", op, at3, mtok, hx.Hex([]byte(rq[0])), hx.Hex([]byte(rq[1])))
 			}
 		}
 	}
@@ -98,7 +217,7 @@ func alinIllTyped(g *hx.Gen) {
 	for _, op := range alinOps {
 		for _, mode := range []string{"LQ", "QL", "A2", "NA", "LL"} {
 			for _, at := range []string{dna, nogap, gapLast, at3} {
-				for _, m := range [][][]int{full, full[:4], fam3[0], nil} {
+				for _, m := range [][][]int{full, full[:4], fam3[0], nil, alinOversize(full, 1, 0), alinRowLen(alinOversize(full, 2, 3), 6, 5)} {
 					for _, rq := range [][2]string{{"acgt", "gat"}, {"ab", "ba"}, {"a", "a"}, {"az", "a"}, {"a", "za"}} {
 						if g.Done() {
 							return
@@ -131,6 +250,9 @@ func alinIllTyped(g *hx.Gen) {
 		if g.Chance(0.15) {
 			f[5] = []string{"LQ", "QL", "A2", "NA"}[g.Intn(4)]
 		}
+		if g.Chance(0.3) { // a random ill-shaped (one in seven: legal oversized) matrix
+			f[2] = alinMatrixTok(alinBreakMatrix(g, alinMatrix(f[2])))
+		}
 		g.Case(strings.Join(f, " "))
 	}
 }
@@ -139,14 +261,12 @@ func c09linGen(g *hx.Gen) {
 	alinIllTyped(g)
 	// the well-typed inputs of C08: exhaustive small part and random pairs
 	alinExhaustive(g, "-ab", g.Scale(3, 4), 1)
+	alinExhaustiveOversized(g, "-ab", g.Scale(2, 3), 1)
 	alinExhaustive(g, "-abc", 3, g.Scale(2, 1))
+	alinExhaustiveOversized(g, "-abc", 2, g.Scale(2, 1))
 	n := g.Scale(3000, 30000)
 	for k := 0; k < n && !g.Done(); k++ {
-		def := []string{"-ab", "-abc"}[g.Intn(2)]
-		m := alinRandMatrix(g, len(def))
-		r := g.Letters(def[1:], g.Range(1, 6))
-		q := g.Letters(def[1:], g.Range(1, 6))
-		g.Casef("%s %s %s %s %s LL", alinOps[g.Intn(3)], alinAlphaTok(def, true, '-'), alinMatrixTok(m), hx.Hex(r), hx.Hex(q))
+		alinTinyRandom(g)
 	}
 	n = g.Scale(4000, 60000)
 	for k := 0; k < n && !g.Done(); k++ {
